@@ -1,5 +1,7 @@
 /* Family "starve" (C14).  Built with -DNSYNC_VERIF_LONG_WAIT_THRESHOLD=T (T = 1, 2, 3).
-   Thread 0 is the victim:  V  lock; section; unlock      Vr  rlock; section; runlock
+   Victims (thread 0, and any further thread whose single operation is V / Vr -- two reader victims are the
+   only way to have two long waiters at once, since readers are woken together):
+                            V  lock; section; unlock      Vr  rlock; section; runlock
    The others barge:        Lk / Rk / Tk   k times { lock | rlock | trylock; section; unlock; voluntary yield }
    Oracle (API level; the runtime counts semaphore sleeps per call): from the moment the victim's
    (T+1)-th sleep in its call has begun until it acquires, no lock / rlock / trylock call that has
@@ -9,16 +11,22 @@
 
 static nsync_mu mu;
 static int datum;
-static int victim_in_call, victim_reader;
+static int victim_in_call[H_MAXT], is_victim[H_MAXT];
 static int max_victim_sleeps;
+static int excused[H_MAXT]; static unsigned ex_sleeps[H_MAXT];
 
 static int st_setup (const char *program) {
 	int t, k, n = h_parse (program);
 	if (n < 2) return -1;
 	if (h_nops[0] != 1 || (strcmp (h_op[0][0], "V") && strcmp (h_op[0][0], "Vr"))) return -1;
-	for (t = 1; t < n; t++) for (k = 0; k < h_nops[t]; k++) {
-		const char *o = h_op[t][k];
-		if (!strchr ("LRT", o[0]) || o[0] == 0 || o[1] < '1' || o[1] > '9' || o[2]) return -1;
+	for (t = 0; t < H_MAXT; t++) is_victim[t] = 0;
+	is_victim[0] = 1;
+	for (t = 1; t < n; t++) {
+		if (h_nops[t] == 1 && (!strcmp (h_op[t][0], "V") || !strcmp (h_op[t][0], "Vr"))) { is_victim[t] = 1; continue; }
+		for (k = 0; k < h_nops[t]; k++) {
+			const char *o = h_op[t][k];
+			if (!strchr ("LRT", o[0]) || o[0] == 0 || o[1] < '1' || o[1] > '9' || o[2]) return -1;
+		}
 	}
 	return n;
 }
@@ -26,22 +34,33 @@ MC_ORACLE static void acquired (void *m, int acq, int writer) {
 	int me = mc_self ();
 	(void) writer;
 	if (m != (void *) &mu || !acq) return;
-	if (me == 0) { victim_in_call = 0; return; }
-	if (victim_in_call && ((int) mc_sleeps_of (0) >= LONG_WAIT_THRESHOLD + 1 || (int) h_call_dequeues (0) >= LONG_WAIT_THRESHOLD + 1) && !h_call_has_waited (me))
-		mc_fail ("starvation avoidance broken: T%d acquired the mutex with a call that never waited, although the victim has been sent back to sleep %u times (threshold %d)", me, mc_sleeps_of (0), LONG_WAIT_THRESHOLD);
+	if (me >= 0 && me < H_MAXT && is_victim[me]) victim_in_call[me] = 0;
+	/* MU_LONG_WAIT is one bit shared by all long waiters (threads woken LONG_WAIT_THRESHOLD times in their
+	   call, victims and bargers alike) and is cleared by whichever of them acquires: the other long waiters
+	   are unprotected until they queue again and set the bit again.  That single slip per other long waiter
+	   is by design and keeps the bound; it is excused below for exactly as long as the victim has not begun
+	   another sleep (i.e. has not queued again).  */
+	if (me >= 0 && (int) h_call_dequeues (me) >= LONG_WAIT_THRESHOLD)
+		for (int v = 0; v < h_nthreads; v++) if (v != me && is_victim[v]) { excused[v] = 1; ex_sleeps[v] = mc_sleeps_of (v); }
+	for (int v = 0; v < h_nthreads; v++)
+		if (v != me && is_victim[v] && victim_in_call[v] && ((int) mc_sleeps_of (v) >= LONG_WAIT_THRESHOLD + 1 || (int) h_call_dequeues (v) >= LONG_WAIT_THRESHOLD + 1) && !h_call_has_waited (me)) {
+			if (excused[v] && ex_sleeps[v] == mc_sleeps_of (v)) continue;   /* v has not queued and slept again since the bit was cleared */
+			mc_fail ("starvation avoidance broken: T%d acquired the mutex with a call that never waited, although the victim T%d has been sent back to sleep %u times (threshold %d)", me, v, mc_sleeps_of (v), LONG_WAIT_THRESHOLD);
+			return;
+		}
 }
 static void st_init (void) { nsync_mu_init (&mu); mc_name (&mu, sizeof mu, "mu"); mc_rwlock_listener = &acquired; }
-MC_ORACLE static void victim_begin (int reader) { victim_in_call = 1; victim_reader = reader; }
+MC_ORACLE static void victim_begin (int me) { victim_in_call[me] = 1; }
 MC_ORACLE static void victim_end (unsigned sleeps) { if ((int) sleeps > max_victim_sleeps) max_victim_sleeps = (int) sleeps; }
 static void st_thread (int me) {
 	int k, i;
-	if (me == 0) {
-		int reader = h_op[0][0][1] == 'r';
+	if (is_victim[me]) {
+		int reader = h_op[me][0][1] == 'r';
 		unsigned s;
 		mc_blocks_reset (); h_call_begin ();
-		victim_begin (reader);
+		victim_begin (me);
 		if (reader) nsync_mu_rlock (&mu); else nsync_mu_lock (&mu);
-		s = mc_sleeps_of (0);
+		s = mc_sleeps_of (me);
 		(void) mc_blocks ();
 		victim_end (s);
 		h_enter (&mu, !reader, "victim's lock");
